@@ -1,6 +1,6 @@
 """C03 — blocks of unknown type survive load and save untouched (reader older than writer: F-SKEW)."""
 from .prng import Rng
-from . import inputs, hist, synth
+from . import inputs, hist, synth, edits as editlib
 
 PROP = 'C03'
 LEVEL = 'exploration'
@@ -12,7 +12,7 @@ RULE = ('one run = a stored file with a block-size table (samples of 20.2.0.7, s
         'every string index below the old count denotes the same string, output walks to its footer and loads. non-trivial = at least one block was relabelled and the file '
         'loaded; distinct = distinct (file, subset, name variant, options).')
 ASSUMPTIONS = ['only relabelled blocks are required to be byte-identical (known blocks may be normalised as in C01)', 'files without a block-size table (Oblivion) cannot carry unknown blocks and are skipped']
-EXPECTED_PROBES = ['unknown_blocks_present', 'root_relabelled', 'saved_through_a_copy']
+EXPECTED_PROBES = ['unknown_blocks_present', 'root_relabelled', 'saved_through_a_copy', 'edited_with_unknown_blocks_present']
 SIZED_VERSIONS = ['FO3', 'SK', 'SSE', 'FO4', 'FO4_132', 'FO4_139', 'FO76', 'SF', 'SF173']
 
 
@@ -24,6 +24,14 @@ def jobs(tier, seed, pool):
     def add(init, relabel, all_=False, same_len=True, raw=True, queries=False, kind='sample', resave=False):
         p = {'property': PROP, 'profile': 'unknown', 'init': init, 'relabel': relabel, 'all': all_, 'same_len': same_len, 'raw': raw, 'queries': queries,
              'resave_first': resave, 'timeout_s': 40}
+        if viarng.chance(0.3):
+            # renames / texture edits / added nodes while the unknown blocks are present
+            p['edits'] = [editlib.edit_step(viarng, 'quick', allow=['SetNodeName', 'RenameShape', 'SetTexture', 'SetTexturePath', 'SetNodeTransform'])
+                          for _ in range(viarng.range(1, 3))]
+        if viarng.chance(0.15) and 'sample' in init:
+            # a stored file with texture paths that the loader will clean (so that strings change at load)
+            init = dict(init, edits=[{'op': 'SetTexturePath', 'shape': viarng.below(4), 'salt': viarng.below(1 << 30)} for _ in range(2)])
+            p['init'] = init
         v = viarng.below(10)
         if v < 3:
             p['via'] = 'copy' if v < 2 else 'assign'
